@@ -73,7 +73,7 @@ def _pred_post(A, r):
                isinstance(idx, SObj) and equiv(vals(idx), labels) if isinstance(idx, SObj) else False)
 
 
-contract(f"{TR}::PolynomialTrendForecaster._predict", "C11,C03", cases=["rel", "abs"],
+contract(f"{TR}::PolynomialTrendForecaster._predict", "C11,C03,C12", cases=["rel", "abs"],
          inputs=lambda B, case: (lambda o: (o.attrs.update({"_fh": sym_fh(B, "fh", relative=(case == "rel"), nonempty=True)}) or
                                             {"self": o, "fh": o.attrs["_fh"], "X": None}))(mk_trend(B, True)),
          ensures=[("same-time-axis-as-fit-labelled-with-requested-points", _pred_post)],
